@@ -144,6 +144,15 @@ class Interp:
     def snapshot(self, st, v):
         """Term for the *current* content of a heap object."""
         h = st.heap[v.d]
+        from .values import EMPTY_DICT_CANON, EMPTY_LIST_CANON
+        if isinstance(h, HList) and h.items is not None and not h.items and not h.kind_set:
+            t = self.reg.obj(EMPTY_LIST_CANON)
+            st.assume(T.F_len(t) == 0)
+            return t
+        if isinstance(h, HDict) and h.pairs is not None and not h.pairs:
+            t = self.reg.obj(EMPTY_DICT_CANON)
+            st.assume(T.F_mlen(t) == 0)
+            return t
         t = self.ctx.fresh_val("snap")
         if isinstance(h, HList):
             st.assume(T.F_cls(t) == self.reg.cls(list))
